@@ -19,6 +19,9 @@ type Case struct {
 	Strict bool `json:"allow_global_update_off,omitempty"`
 	// SessionAGU (with Strict): AllowGlobalUpdate is switched on by Session instead of Config.
 	SessionAGU bool `json:"allow_global_update_by_session,omitempty"`
+	// Logger (C19 handle configuration): 0 logger.Discard, 1 stock logger at
+	// Info with ParameterizedQueries, 2 stock logger at Silent, 3 db.Debug().
+	Logger int `json:"logger,omitempty"`
 }
 
 // Slot is one argument position of a resolved program.
@@ -215,6 +218,9 @@ func (p *Prog) String() string {
 			agu = " AllowGlobalUpdate=by-session"
 		}
 	}
+	if p.Case.Logger > 0 {
+		agu += " logger=" + []string{"discard", "info+parameterized", "silent", "debug()"}[p.Case.Logger]
+	}
 	return fmt.Sprintf("model=%s%s :: db.%s  [%s]", ModelName[p.Case.Model], agu, strings.Join(parts, "."), strings.Join(cls, " "))
 }
 
@@ -256,7 +262,7 @@ func (s Shape) Prog(classes []int) *Prog {
 
 // FullCase returns the serialisable form of a resolved program.
 func (p *Prog) FullCase() Case {
-	c := Case{Model: p.Case.Model, Fin: p.Fin.Label, Readable: p.String(), Strict: p.Case.Strict, SessionAGU: p.Case.SessionAGU}
+	c := Case{Model: p.Case.Model, Fin: p.Fin.Label, Readable: p.String(), Strict: p.Case.Strict, SessionAGU: p.Case.SessionAGU, Logger: p.Case.Logger}
 	for _, o := range p.Ops {
 		c.Ops = append(c.Ops, o.Label)
 	}
